@@ -4,16 +4,18 @@ from fractions import Fraction
 import core
 
 PROP = "C17"
-COUNT = {"quick": 220, "thorough": 3000, "search": 900}
+COUNT = {"quick": 260, "thorough": 3000, "search": 900}
 PARALLEL = True
-RULE = ("three case kinds from one PRNG. mdoc (55%): texts from a grammar - header entries (int / float / negative / text values), 0..3 "
+RULE = ("three case kinds from one PRNG. mdoc (50%): texts from a grammar - header entries (int / float / negative / text values), 0..3 "
         "titles, ZValue (10% FrameSet) sections with 1..80 images, per image a TiltAngle (distinct, negative and positive, 0..4 decimals), "
         "ExposureDose, PriorRecordDose and 0..6 further keys with int / float (<=15 significant digits, leading/trailing zeros, '.5', '5.') / "
         "negative / exponent-form / multi-word text values, random blanks around '=' and at line ends; then an op sequence of sort_by_tilt and "
         "remove_images (any index subset incl. negative indices, kept_only both ways), write(removed both ways), re-read; 6% malformed texts the "
-        "reader must refuse. loaders (20%): tilt / dose files with 1..80 values, gctf STAR (with / without rlnPhaseShift) and ctffind4 text with "
-        "1..80 rows. wedge (25%): 1..5 tomograms, per-tomogram dimensions and z-shifts, 1..80 ascending tilts, optional ctf (gctf / ctffind4 / "
-        "array) and dose (file / array / mdoc) inputs, file and array inputs, STAR output re-read, EM list, sg->em conversion. "
+        "reader must refuse. loaders (27%): tilt / dose files with 1..80 values, gctf STAR (with / without rlnPhaseShift) and ctffind4 text with "
+        "1..80 rows; input dispatch of tlt_load / total_dose_load (ndarray, list, path with .tlt / .rawtlt / .txt / .csv / no extension / "
+        ".mdoc, empty array / list / file, sort_angles both ways) and of defocus_load (DataFrame, Nx5 / Nx4 array, path with file_type in any case, unknown type). wedge (23%): 1..5 tomograms, per-tomogram dimensions and z-shifts, 1..80 ascending tilts, optional ctf (gctf / ctffind4 / "
+        "array) and dose (file / array / mdoc) inputs, file and array inputs, 10% with a tomogram listed twice (interleaved), STAR output re-read and compared "
+        "with the model's table (columns, cells), EM list, sg->em conversion. "
         "non-trivial = mdoc with >=3 images, >=1 negative tilt, >=1 float and >=1 text cell and >=1 removed image; loaders with >=3 rows; wedge "
         "with >=2 tomograms of different lengths; distinct = distinct case content")
 ASSUMPTIONS = ["Python float(s) followed by str() of a decimal with <= 15 significant digits prints the canonical decimal (plain form for 1e-4 <= x < 1e16, "
@@ -21,7 +23,10 @@ ASSUMPTIONS = ["Python float(s) followed by str() of a decimal with <= 15 signif
                "numpy float64 str() = Python float repr (TiltAngle column) - probed (probe np-float64-str)",
                "DataFrame.sort_values on distinct keys = the stable merge sort of the model (ties are not generated)",
                "float32 / float64 arithmetic of numpy agrees with exact rational arithmetic within rel. 2e-6 (float32 paths) / 1e-9 (float64 paths)",
-               "mdoc sections all carry the same key list, keys are distinct (grammar); other shapes are outside the model"]
+               "mdoc sections all carry the same key list, keys are distinct (grammar); other shapes are outside the model",
+               "the STAR layer round-trips well-formed tables (property C02): hypothesis StarRoundTrip of wedge_via_file / sg_to_em_via_file; the real file is "
+               "re-read on every wedge case and compared with the model's table (columns exactly, cells within 1e-5)",
+               "WARP xml and csv inputs of the loaders are outside the model (the dispatch to them is modelled, their readers are not)"]
 TRUSTED = ["harness line splitting of mdoc text (str.split('\\n')) and the canonicalisation of pandas cells in props/c17.py",
            "Starfile.read/write (property C02) when a wedge list goes through a STAR file"]
 
@@ -221,6 +226,156 @@ def translate(src):
         return True
     emm = src.anchor("create_wedge_list_em_batch:min/max", em_minmax)
 
+    # ---- dispatch tables of the loaders (type chain, extension / file-type chain, default reader)
+    def _if_chain(fn):
+        """top-level if / elif chain of a function body -> list of (test node | None for else, body)"""
+        top = [st for st in fn.body if isinstance(st, ast.If)]
+        if len(top) != 1:
+            raise core.AnchorMissing(fn.name + ": expected exactly one top-level if-chain")
+        out, node = [], top[0]
+        while True:
+            out.append((node.test, node.body))
+            if len(node.orelse) == 1 and isinstance(node.orelse[0], ast.If):
+                node = node.orelse[0]
+            else:
+                out.append((None, node.orelse))
+                return out
+
+    def _isinstance_type(test, var):
+        if isinstance(test, ast.Call) and ast.unparse(test.func) == "isinstance" and ast.unparse(test.args[0]) == var:
+            return ast.unparse(test.args[1])
+        raise core.AnchorMissing("not isinstance(" + var + ", ...): " + ast.unparse(test))
+
+    def _first_call(body):
+        for st in body:
+            if isinstance(st, ast.Assign) and isinstance(st.value, ast.Call):
+                return ast.unparse(st.value.func)
+            if isinstance(st, ast.Return) and isinstance(st.value, ast.Call):
+                return ast.unparse(st.value.func)
+        raise core.AnchorMissing("branch does not start with a reader call")
+
+    def _ext_chain(body, var):
+        """the `if var.endswith(ext) … elif … else` chain inside the str branch -> ([(ext, reader)], default reader, chain node)"""
+        chain = [st for st in body if isinstance(st, ast.If) and "endswith" in ast.unparse(st.test)]
+        if len(chain) != 1:
+            raise core.AnchorMissing("expected one endswith chain")
+        node, table = chain[0], []
+        while True:
+            t = node.test
+            if not (isinstance(t, ast.Call) and ast.unparse(t.func) == var + ".endswith" and isinstance(t.args[0], ast.Constant)):
+                raise core.AnchorMissing("extension test rewritten: " + ast.unparse(t))
+            table.append([t.args[0].value, _first_call(node.body)])
+            if len(node.orelse) == 1 and isinstance(node.orelse[0], ast.If):
+                node = node.orelse[0]
+            else:
+                return table, _first_call(node.orelse), chain[0]
+
+    def loader_dispatch(fname, var):
+        def f():
+            fn = src.find(I, fname)
+            ch = _if_chain(fn)
+            types = [_isinstance_type(t, var) for t, _ in ch[:-1]]
+            if not (ch[-1][1] and isinstance(ch[-1][1][0], ast.Raise)):
+                raise core.AnchorMissing(fname + ": the final else no longer raises")
+            sbody = [b for t, b in ch[:-1] if _isinstance_type(t, var) == "str"]
+            if len(sbody) != 1:
+                raise core.AnchorMissing(fname + ": no str branch")
+            table, dflt, chain = _ext_chain(sbody[0], var)
+            # what the array / list branches return
+            rets = []
+            for t, b in ch[:-1]:
+                ty = _isinstance_type(t, var)
+                if ty == "str":
+                    continue
+                r = [core.norm_expr(n.value) for st in b for n in ast.walk(st) if isinstance(n, ast.Return)]
+                rets.append([ty, r[-1] if r else "?"])
+            # is np.sort applied inside the str branch only, after the extension chain?
+            sort_in_str = any("np.sort(" in ast.unparse(st) for st in sbody[0] if st is not chain)
+            sort_elsewhere = any("np.sort(" in ast.unparse(st) for t, b in ch[:-1] if _isinstance_type(t, var) != "str" for st in b)
+            return dict(types=types, table=table, default=dflt, returns=rets, sort_files_only=(sort_in_str and not sort_elsewhere))
+        return f
+    tl = src.anchor("tlt_load:type chain + extension dispatch", loader_dispatch("tlt_load", "input_tlt")) or {}
+    dl = src.anchor("total_dose_load:type chain + extension dispatch", loader_dispatch("total_dose_load", "input_dose")) or {}
+
+    def dose_sort_default():
+        fn = src.find(I, "total_dose_load")
+        names = [a.arg for a in fn.args.args]
+        if "sort_mdoc" not in names:
+            raise core.AnchorMissing("total_dose_load: sort_mdoc parameter")
+        d = fn.args.defaults[names.index("sort_mdoc") - (len(names) - len(fn.args.defaults))]
+        return bool(ast.literal_eval(d))
+    dsd = src.anchor("total_dose_load:sort_mdoc default", dose_sort_default)
+
+    def defocus_dispatch():
+        fn = src.find(I, "defocus_load")
+        ch = _if_chain(fn)
+        types = [_isinstance_type(t, "input_data") for t, _ in ch[:-1]]
+        first = [core.norm_expr(st) for st in ch[0][1]]
+        if types[:1] != ["pd.DataFrame"] or first != ["defocus_df=input_data"]:
+            raise core.AnchorMissing("defocus_load: DataFrame branch rewritten")
+        sbody = [b for t, b in ch[:-1] if _isinstance_type(t, "input_data") == "str"]
+        if len(sbody) != 1 or len(sbody[0]) != 1 or not isinstance(sbody[0][0], ast.If):
+            raise core.AnchorMissing("defocus_load: str branch rewritten")
+        node, table, lowers = sbody[0][0], [], True
+        while True:
+            t = node.test
+            if not (isinstance(t, ast.Compare) and len(t.ops) == 1 and isinstance(t.ops[0], ast.Eq) and isinstance(t.comparators[0], ast.Constant)):
+                raise core.AnchorMissing("file-type test rewritten: " + ast.unparse(t))
+            lhs = core.norm_expr(t.left)
+            if lhs not in ("file_type.lower()", "file_type"):
+                raise core.AnchorMissing("file-type test rewritten: " + ast.unparse(t))
+            lowers = lowers and lhs == "file_type.lower()"
+            table.append([t.comparators[0].value, _first_call(node.body)])
+            if len(node.orelse) == 1 and isinstance(node.orelse[0], ast.If):
+                node = node.orelse[0]
+            else:
+                if not (node.orelse and isinstance(node.orelse[0], ast.Raise)):
+                    raise core.AnchorMissing("defocus_load: unknown file type no longer raises")
+                break
+        cols = None
+        for st in ch[-1][1]:
+            if isinstance(st, ast.Assign) and ast.unparse(st.targets[0]) == "df_columns":
+                cols = src.literal(st.value)
+        els = [core.norm_expr(st) for st in ch[-1][1]]
+        if cols is None or "defocus_df=pd.DataFrame(input_data,columns=df_columns)" not in els:
+            raise core.AnchorMissing("defocus_load: array branch rewritten")
+        return dict(types=types, table=table, lowers=lowers, array_columns=cols)
+    dd = src.anchor("defocus_load:type chain + file-type dispatch", defocus_dispatch) or {}
+
+    def star_write_args():
+        out = []
+        for fname in ("create_wedge_list_sg", "create_wedge_list_sg_batch"):
+            fn = src.find(W, fname)
+            calls = [n for n in ast.walk(fn) if isinstance(n, ast.Call) and ast.unparse(n.func) == "starfileio.Starfile.write"]
+            if len(calls) != 1:
+                raise core.AnchorMissing(fname + ": Starfile.write call")
+            kw = {k.arg: k.value for k in calls[0].keywords}
+            spec = src.literal(kw["specifiers"])
+            numc = bool(src.literal(kw["number_columns"])) if "number_columns" in kw else True
+            if core.norm_expr(calls[0].args[0]) != "[wedge_list_df]" or len(spec) != 1:
+                raise core.AnchorMissing(fname + ": Starfile.write arguments rewritten")
+            out.append([spec[0], numc])
+        if out[0] != out[1]:
+            raise core.AnchorMissing("single and batch writer use different STAR arguments")
+        return out[0]
+    swa = src.anchor("create_wedge_list_sg(_batch):Starfile.write specifier", star_write_args) or ["?", True]
+
+    def sg2em_groupby():
+        fn = src.find(W, "wedge_list_sg_to_em")
+        t = core.norm_expr(fn)
+        ok = ("wedge_list_sg.groupby('tomo_num').agg(min_tilt_angle=('tilt_angle','min'),max_tilt_angle=('tilt_angle','max'))" in t
+              and "wedge_list_sg=load_wedge_list_sg(input_path)" in t and "wedge_list_em.reset_index(inplace=True)" in t)
+        if not ok:
+            raise core.AnchorMissing("groupby('tomo_num').agg(min, max) rewritten")
+        return ["tomo_num", "tilt_angle", "min", "max"]
+    s2e = src.anchor("wedge_list_sg_to_em:groupby + agg", sg2em_groupby) or []
+
+    def ext_table(tb):
+        return "[" + ", ".join("(" + _chars(e) + ", " + core.lean_str(h) + ")" for e, h in tb) + "]"
+
+    def str_pairs(tb):
+        return "[" + ", ".join("(" + core.lean_str(a) + ", " + core.lean_str(b) + ")" for a, b in tb) + "]"
+
     def rat(x):
         return core.lean_rat(x) if x is not None else "mkRat 0 1"
     kvsep = kv[1] if kv else "?"
@@ -250,6 +405,23 @@ def emMinMax : Bool := {"true" if emm else "false"}
 def wedgeColumns : List String := {core.lean_str_list(wcols)}
 def wedgeAssignments : List (String × String) := [{", ".join("(" + core.lean_str(a) + ", " + core.lean_str(b) + ")" for a, b in wass)}]
 def wedgeEmColumns : List String := {core.lean_str_list(ecols)}
+def wedgeSpecifier : String := {core.lean_str(swa[0])}
+def wedgeNumberColumns : Bool := {"true" if swa[1] else "false"}
+def sgToEmGroupAgg : List String := {core.lean_str_list(s2e)}
+def tltTypeChain : List String := {core.lean_str_list(tl.get("types", []))}
+def tltDispatch : List (List Char × String) := {ext_table(tl.get("table", []))}
+def tltDefault : String := {core.lean_str(tl.get("default", "?"))}
+def tltReturns : List (String × String) := {str_pairs(tl.get("returns", []))}
+def tltSortsFilesOnly : Bool := {"true" if tl.get("sort_files_only") else "false"}
+def doseTypeChain : List String := {core.lean_str_list(dl.get("types", []))}
+def doseDispatch : List (List Char × String) := {ext_table(dl.get("table", []))}
+def doseDefault : String := {core.lean_str(dl.get("default", "?"))}
+def doseReturns : List (String × String) := {str_pairs(dl.get("returns", []))}
+def doseSortsMdocByDefault : Bool := {"true" if dsd else "false"}
+def defocusTypeChain : List String := {core.lean_str_list(dd.get("types", []))}
+def defocusDispatch : List (String × String) := {str_pairs(dd.get("table", []))}
+def defocusLowers : Bool := {"true" if dd.get("lowers") else "false"}
+def defocusArrayColumns : List String := {core.lean_str_list(dd.get("array_columns", []))}
 end CryoCat.Gen.C17
 """
 
@@ -676,14 +848,17 @@ def judge_mdoc(case, obs, resp):
     d = _same_object(P, obs["fresh_reread"])
     if d:
         out.append(dict(kind="spec", clause="mdoc-roundtrip", detail="after write + re-read: " + d, k1=_k1_only(P, obs["fresh_reread"])))
-        if mod.get("wf"):
+        if mod.get("wf") or mod.get("text_ok"):
             out.append(dict(kind="corr", clause="theorem-hypotheses-hold-but-roundtrip-fails",
-                            detail="the model object passes wfb (hypothesis of read_write_read) yet the real round trip differs: " + d))
+                            detail=f"the text is in the class textOk={mod.get('text_ok')} / the model object passes wfb={mod.get('wf')} (hypotheses of "
+                                   "read_write_read_text / read_write_read) yet the real round trip differs: " + d))
     if mod["fresh_written"] is not None and obs["fresh_written"] != "".join(l + "\n" for l in mod["fresh_written"]):
         out.append(dict(kind="corr", clause="written-text-vs-model", detail=_first_line_diff(obs["fresh_written"], mod["fresh_written"])))
     d = _mdoc_eq(obs["fresh_reread"], mod["fresh_reread"]) if "raise" not in obs["fresh_reread"] else ("re-read raised " + obs["fresh_reread"]["raise"])
     if d:
         out.append(dict(kind="corr", clause="reread-vs-model", detail=d))
+    if mod["parsed"] is not None and bool(mod.get("text_ok")) != bool(mod.get("wf")):
+        out.append(dict(kind="corr", clause="text_class_exact-contradicted", detail=f"the model reads the text, textOk={mod.get('text_ok')} but wfb={mod.get('wf')}"))
     # (3) operations
     A = obs["after"]
     if "raise" in A:
@@ -825,9 +1000,44 @@ def _ctf_rows(rng, n):
     return rows
 
 
+TLT_EXTS = [".tlt", ".rawtlt", ".txt", ".csv", "", ".tlt.bak", ".mdoc.txt", ".xmlx"]
+FILE_TYPES = {"gctf": ["gctf", "GCTF", "Gctf", "gCTF"], "ctffind": ["ctffind4", "CTFFIND4", "CtfFind4"]}
+
+
+def gen_load_in(rng, sub, n):
+    """input-dispatch cases of tlt_load / total_dose_load / defocus_load"""
+    if sub in ("tlt_in", "dose_in"):
+        k = rng.random()
+        case = dict(kind="load", sub=sub, sort=(None if rng.random() < 0.6 else rng.random() < 0.5))
+        if k < 0.12:
+            case.update(input=rng.choice(["array", "list", "file"]), vals=[], ext=rng.choice(TLT_EXTS))       # empty input
+        elif k < 0.4:
+            case.update(input=rng.choice(["array", "list"]), vals=[f"{rng.uniform(-70, 200):.{rng.randint(0, 3)}f}" for _ in range(n)])
+        elif k < 0.75:
+            case.update(input="file", ext=rng.choice(TLT_EXTS), vals=[f"{rng.uniform(-70, 200):.{rng.randint(0, 3)}f}" for _ in range(n)])
+        else:
+            tilts = _asc_tilts(rng, n)
+            doses = [[f"{rng.uniform(1, 4):.4f}", f"{rng.uniform(0, 150):.3f}"] for _ in range(n)]
+            case.update(input="file", ext=".mdoc", tilts=tilts, doses=doses, text=_mdoc_for_wedge(rng, tilts, doses), stem=rng.choice(["x", "TS_01.mrc", "a.tlt"]))
+        return case
+    k = rng.random()
+    case = dict(kind="load", sub=sub, rows=_ctf_rows(rng, n))
+    if k < 0.2:
+        case.update(input="frame")
+    elif k < 0.4:
+        case.update(input="array", width=(5 if rng.random() < 0.8 else rng.choice([4, 6])))
+    else:
+        content = rng.choice(["gctf", "ctffind"])
+        ft = rng.choice(FILE_TYPES[content]) if rng.random() < 0.85 else rng.choice(["relion", "ctffind", "gctf2", ""])
+        case.update(input="file", content=content, file_type=ft, phase=(rng.random() < 0.5))
+    return case
+
+
 def gen_load(rng, tier):
-    sub = rng.choice(["tlt", "tlt", "dose", "gctf", "gctf", "ctffind", "ctffind"])
+    sub = rng.choice(["tlt", "tlt", "dose", "gctf", "gctf", "ctffind", "ctffind", "tlt_in", "tlt_in", "dose_in", "dose_in", "defocus_in", "defocus_in"])
     n = rng.randint(20, 80) if rng.random() < 0.1 else rng.randint(1, 12)
+    if sub.endswith("_in"):
+        return gen_load_in(rng, sub, n)
     if sub in ("tlt", "dose"):
         if sub == "tlt" and rng.random() < 0.6:
             vals = _asc_tilts(rng, n)
@@ -883,6 +1093,9 @@ def gen_wedge(rng, tier):
         case["z_int_array"] = True      # integer-valued ndarray of z-shifts (class of C17-K2)
         for tm in tomos:
             tm["z"] = str(rng.randint(-50, 50))
+    if nt >= 2 and rng.random() < 0.1:
+        tomos.append(tomos[0])          # a tomogram listed twice, interleaved: one block per listing, sg->em merges them
+        case["duplicate"] = True
     if rng.random() < 0.05 and (ctf or dose == "txt"):
         tm = rng.choice(tomos)          # inconsistent lengths: check_data_consistency must refuse
         if ctf and rng.random() < 0.5:
@@ -920,9 +1133,53 @@ def _df_rows(df):
                 dtypes=[str(t) for t in df.dtypes])
 
 
+def run_load_in(case):
+    import numpy as np, pandas as pd
+    from cryocat import ioutils
+    out = {}
+    with tempfile.TemporaryDirectory(prefix="c17_") as td:
+        if case["sub"] in ("tlt_in", "dose_in"):
+            if case["input"] == "array":
+                inp = np.array([float(v) for v in case["vals"]], dtype=float)
+            elif case["input"] == "list":
+                inp = [float(v) for v in case["vals"]]
+            elif case["ext"] == ".mdoc":
+                inp = os.path.join(td, case["stem"] + ".mdoc")
+                open(inp, "w").write(case["text"])
+            else:
+                inp = os.path.join(td, "x" + case["ext"])
+                open(inp, "w").write("".join(v + "\n" for v in case["vals"]))
+            if case["sub"] == "tlt_in":
+                kw = {} if case["sort"] is None else dict(sort_angles=case["sort"])
+                out["out"] = _try(lambda: _floats(ioutils.tlt_load(inp, **kw)))
+            else:
+                out["out"] = _try(lambda: _floats(ioutils.total_dose_load(inp)))
+            return out
+        want = _expected_defocus(case["rows"])
+        if case["input"] == "frame":
+            df = pd.DataFrame([[float(x) for x in r] for r in want], columns=DEF_COLS)
+            res = ioutils.defocus_load(df, "gctf")
+            out["same_object"] = res is df
+            out["out"] = _df_rows(res)
+        elif case["input"] == "array":
+            arr = np.array([[float(x) for x in r][:case["width"]] + [0.0] * max(0, case["width"] - 5) for r in want])
+            out["out"] = _try(lambda: _df_rows(ioutils.defocus_load(arr, "gctf")))
+        else:
+            if case["content"] == "gctf":
+                p = os.path.join(td, "x_gctf.star")
+                open(p, "w").write(_gctf_text(case["rows"], case["phase"], 0))
+            else:
+                p = os.path.join(td, "x_ctffind4.txt")
+                open(p, "w").write(_ctffind_text(case["rows"], 2))
+            out["out"] = _try(lambda: _df_rows(ioutils.defocus_load(p, case["file_type"])))
+    return out
+
+
 def run_load(case):
     import numpy as np
     from cryocat import ioutils
+    if case["sub"].endswith("_in"):
+        return run_load_in(case)
     out = {}
     with tempfile.TemporaryDirectory(prefix="c17_") as td:
         if case["sub"] in ("tlt", "dose"):
@@ -1099,6 +1356,14 @@ def _expected_wedge(case):
     return rows, em
 
 
+def _merge_em(em):
+    """one row per tomogram number, ascending, min of the minima / max of the maxima (a tomogram listed twice is merged)"""
+    by = {}
+    for t, lo, hi in em:
+        by[t] = (min(lo, by[t][0]), max(hi, by[t][1])) if t in by else (lo, hi)
+    return [[t, by[t][0], by[t][1]] for t in sorted(by)]
+
+
 def _cmp_table(got, cols, want, rels, what):
     """got: _df_rows dict; want: list of rows of Fractions aligned with cols"""
     if "raise" in got:
@@ -1118,10 +1383,125 @@ def _model_rows(resp_rows):
     return [[None if v is None else (Fraction(v) if isinstance(v, int) else Fraction(v[0], v[1])) for v in r] for r in resp_rows]
 
 
+def _expected_reader(path, table, default):
+    for ext, reader in table:
+        if path.endswith(ext):
+            return reader
+    return default
+
+
+def judge_load_in(case, obs, resp):
+    """the statement ("loaders return the numbers in their files", arrays as given) evaluated independently, then model vs implementation"""
+    out = []
+    got = obs["out"]
+    raised = isinstance(got, dict) and "raise" in got
+    mod = resp["out"]
+    if case["sub"] in ("tlt_in", "dose_in"):
+        tlt = case["sub"] == "tlt_in"
+        sort = tlt and (case["sort"] is None or case["sort"])
+        if case["input"] in ("array", "list"):
+            want = [Fraction(v) for v in case["vals"]]            # as given, not sorted
+            must_raise = tlt and not want
+            rel = Fraction(0)
+            reader = None
+        elif case["ext"] == ".mdoc":
+            order = sorted(range(len(case["tilts"])), key=lambda j: Fraction(case["tilts"][j]))
+            if tlt:
+                acq = [Fraction(l.split("=")[1]) for l in case["text"].split("\n") if l.startswith("TiltAngle")]
+                want = sorted(acq) if sort else acq
+            else:
+                want = [Fraction(case["doses"][j][0]) + Fraction(case["doses"][j][1]) for j in order]
+            must_raise, rel, reader = False, F64, "mdoc.Mdoc"
+        else:
+            vals = [Fraction(repr(_f32(v))) for v in case["vals"]]
+            want = sorted(vals) if sort else vals
+            must_raise, rel, reader = (not vals), Fraction(0), "one_value_per_line_read"
+        if reader is not None:
+            table = [(".mdoc", "mdoc.Mdoc"), (".xml", "get_data_from_warp_xml")]
+            if not tlt:
+                table = [(".csv", "pd.read_csv")] + table
+            indep = _expected_reader("x" + case["ext"] if case["ext"] != ".mdoc" else case["stem"] + ".mdoc", table, "one_value_per_line_read")
+            if not tlt and case["ext"] == ".csv":
+                return out if resp["reader"] == "pd.read_csv" and mod is None else [dict(kind="corr", clause="loader-dispatch-model", detail=f".csv dose path: model reader {resp['reader']}")]
+            if resp["reader"] != indep:
+                out.append(dict(kind="corr", clause="loader-dispatch-model", detail=f"model sends {case['ext']!r} to {resp['reader']}, the extension table says {indep}"))
+        if must_raise:
+            if not raised:
+                out.append(dict(kind="spec", clause="loader-accepts-empty", detail=f"{case['sub']} {case['input']}: empty input returned {got}"))
+            if mod is not None:
+                out.append(dict(kind="corr", clause="loader-model-accepts-empty", detail=""))
+            return out
+        if raised:
+            out.append(dict(kind="spec", clause="loader-raises", detail=f"{case['sub']} {case['input']} {case.get('ext', '')}: {got['raise']}"))
+            return out
+        if len(got) != len(want) or any(not _close(g, w, rel) for g, w in zip(got, want)):
+            out.append(dict(kind="spec", clause="loader-values", detail=f"{case['sub']} {case['input']} {case.get('ext', '')} sort={case['sort']}: returned {got[:6]}, "
+                                                                         f"the input holds {[float(w) for w in want[:6]]}"))
+        if mod is None:
+            out.append(dict(kind="corr", clause="loader-model-refuses", detail=f"{case['sub']} {case['input']} {case.get('ext', '')}"))
+        else:
+            m = [Fraction(a, b) for a, b in mod]
+            if case["input"] == "file" and case["ext"] != ".mdoc":
+                m = [Fraction(repr(_f32(x))) for x in m]       # the file readers return float32
+            if len(m) != len(got) or any(not _close(g, x, rel) for g, x in zip(got, m)):
+                out.append(dict(kind="corr", clause="loader-vs-model", detail=f"model {[float(x) for x in m[:6]]} / impl {got[:6]}"))
+        return out
+    # defocus_load
+    want = _expected_defocus(case["rows"], True)
+    if case["input"] == "frame":
+        if not obs.get("same_object"):
+            out.append(dict(kind="spec", clause="defocus-frame-not-as-given", detail="a DataFrame input is not returned as is"))
+        d = _cmp_table(got, DEF_COLS, want, {c: F64 for c in DEF_COLS}, "defocus_load(DataFrame)")
+        if d:
+            out.append(dict(kind="spec", clause="defocus-frame-values", detail=d))
+        if mod is None or _model_rows(mod) != want:
+            out.append(dict(kind="corr", clause="defocus-frame-model", detail=""))
+        return out
+    if case["input"] == "array":
+        if case["width"] != 5:
+            if not raised:
+                out.append(dict(kind="spec", clause="defocus-array-width", detail=f"an N x {case['width']} array is accepted"))
+            if mod is not None:
+                out.append(dict(kind="corr", clause="defocus-array-width-model", detail=""))
+            return out
+        d = _cmp_table(got, DEF_COLS, want, {c: F64 for c in DEF_COLS}, "defocus_load(ndarray)")
+        if d:
+            out.append(dict(kind="spec", clause="defocus-array-values", detail=d))
+        if mod is None or _model_rows(mod) != want:
+            out.append(dict(kind="corr", clause="defocus-array-model", detail=""))
+        return out
+    ft = case["file_type"].lower()
+    known = {"gctf": "gctf_read", "ctffind4": "ctffind4_read", "warp": "warp_ctf_read"}
+    if resp["reader"] != known.get(ft):
+        out.append(dict(kind="corr", clause="defocus-dispatch-model", detail=f"file_type {case['file_type']!r}: model reader {resp['reader']}, table says {known.get(ft)}"))
+    matches = (ft == "gctf" and case["content"] == "gctf") or (ft == "ctffind4" and case["content"] == "ctffind")
+    if ft not in known:
+        if not raised or "not supported" not in got["raise"]:
+            out.append(dict(kind="spec", clause="defocus-unknown-type", detail=f"file_type {case['file_type']!r}: {got}"))
+        if mod is not None:
+            out.append(dict(kind="corr", clause="defocus-unknown-type-model", detail=""))
+    elif matches:
+        g = case["content"] == "gctf"
+        want = _expected_defocus(case["rows"], case["phase"] or not g)
+        rel = F64 if g else F32
+        d = _cmp_table(got, DEF_COLS, want, {c: rel for c in DEF_COLS}, f"defocus_load(path, {case['file_type']!r})")
+        if d:
+            out.append(dict(kind="spec", clause="defocus-units-or-mean", detail=d))
+        if mod is None or _model_rows(mod) != want:
+            out.append(dict(kind="corr", clause="defocus-file-model", detail=f"model {mod and mod[:1]}"))
+    else:
+        # a file of the other program under this type: the reader chosen must be the one named by file_type (it then fails or mis-reads;
+        # only the dispatch is judged, by the model's reader above)
+        pass
+    return out
+
+
 def judge_load(case, obs, resp):
     out = []
     if "error" in resp:
         return [dict(kind="corr", clause="driver-error", detail=str(resp))]
+    if case["sub"].endswith("_in"):
+        return judge_load_in(case, obs, resp)
     if case["sub"] == "tlt":
         want = [_f32(v) for v in case["vals"]]
         if [float(x) for x in obs["unsorted"]] != want:
@@ -1189,10 +1569,7 @@ def judge_wedge(case, obs, resp):
         d = _cmp_table(obs["star"], cols, wrows, loose, "wedge list STAR file re-read")
         if d:
             out.append(dict(kind="spec", clause="wedge-star-file", detail=d))
-        em_sorted = sorted(em)
-        merged = []
-        for r in em_sorted:
-            merged.append(r)
+        merged = _merge_em(em)
         for key in ("sg2em", "sg2em_file"):
             d = _cmp_table(obs[key], ["tomo_id", "min_tilt_angle", "max_tilt_angle"], merged, {"tomo_id": F64, "min_tilt_angle": loose["cs"], "max_tilt_angle": loose["cs"]}, f"wedge_list_sg_to_em {key}")
             if d:
@@ -1222,8 +1599,19 @@ def judge_wedge(case, obs, resp):
             out.append(dict(kind="corr", clause="wedge-model-header", detail=f"{resp['header']} vs {cols}"))
         if resp["em"] is None or _model_rows(resp["em"]) != em:
             out.append(dict(kind="corr", clause="wedge-em-model-vs-statement", detail=""))
-        if resp["sg2em"] is None or _model_rows(resp["sg2em"]) != sorted(em):
+        if resp["sg2em"] is None or _model_rows(resp["sg2em"]) != _merge_em(em):
             out.append(dict(kind="corr", clause="wedge-sg2em-model-vs-statement", detail=""))
+        # the file layer of the model: the table that is written, its reload, sg->em on it
+        if resp.get("table_cols") != cols:
+            out.append(dict(kind="corr", clause="wedge-table-columns-model", detail=f"{resp.get('table_cols')} vs {cols}"))
+        elif _model_rows(resp["table_rows"]) != wrows:
+            out.append(dict(kind="corr", clause="wedge-table-cells-model", detail="cells of the model's STAR table differ from the statement"))
+        if resp.get("table_reload_same") is not True:
+            out.append(dict(kind="corr", clause="wedge-table-reload-model", detail="loadSg (sgTable rows) is not rows"))
+        if resp.get("sg2em_table") is None or _model_rows(resp["sg2em_table"]) != _merge_em(em):
+            out.append(dict(kind="corr", clause="wedge-sg2em-table-model", detail=""))
+        if "raise" not in B and isinstance(obs.get("star"), dict) and "columns" in obs["star"] and obs["star"]["columns"] != resp.get("table_cols"):
+            out.append(dict(kind="corr", clause="wedge-star-columns-vs-model", detail=f"file has {obs['star']['columns']}, model table {resp.get('table_cols')}"))
     return out
 
 
@@ -1231,9 +1619,9 @@ def judge_wedge(case, obs, resp):
 def generate(rng, tier, n):
     for _ in range(n):
         k = rng.random()
-        if k < 0.55:
+        if k < 0.5:
             yield gen_mdoc(rng, tier)
-        elif k < 0.75:
+        elif k < 0.77:
             yield gen_load(rng, tier)
         else:
             yield gen_wedge(rng, tier)
@@ -1257,6 +1645,26 @@ def _lines(text):
 def requests(case, obs):
     if case["kind"] == "mdoc":
         return [dict(op="mdoc", lines=_lines(case["text"]), steps=case.get("steps", []), write_removed=case.get("write_removed", False))]
+    if case["kind"] == "load" and case["sub"].endswith("_in"):
+        if case["sub"] in ("tlt_in", "dose_in"):
+            r = dict(op=case["sub"], kind=case["input"])
+            if case["sub"] == "tlt_in" and case["sort"] is not None:
+                r["sort"] = case["sort"]
+            if case["input"] == "file" and case["ext"] == ".mdoc":
+                r.update(path="/tmp/" + case["stem"] + ".mdoc", lines=_lines(case["text"]))
+            elif case["input"] == "file":
+                r.update(path="/tmp/x" + case["ext"], vals=[_rat(v) for v in case["vals"]])
+            else:
+                r["vals"] = [_rat(v) for v in case["vals"]]
+            return [r]
+        want = _expected_defocus(case["rows"], True)
+        if case["input"] in ("frame", "array"):
+            w = case.get("width", 5)
+            arr = [[[x.numerator, x.denominator] for x in r][:w] + [[0, 1]] * max(0, w - 5) for r in want]
+            return [dict(op="defocus_in", kind=case["input"], arr=arr)]
+        g = case["content"] == "gctf"
+        return [dict(op="defocus_in", kind="file", file_type=case["file_type"], content=case["content"],
+                     rows=[[_rat(r[0]), _rat(r[1]), _rat(r[2]), (_rat(r[3]) if (case["phase"] or not g) else None)] for r in case["rows"]])]
     if case["kind"] == "load":
         if case["sub"] in ("tlt", "dose"):
             return [dict(op="tlt", vals=[_rat(v) for v in case["vals"]])]
@@ -1315,7 +1723,7 @@ def nontrivial(case, obs):
         return (len(P["rows"]) >= 3 and any(float(r["cells"][ti][1]) < 0 for r in P["rows"]) and any(c[0] == "s" for c in cells)
                 and sum(1 for c in cells if c[0] == "f") > len(P["rows"]) and "rows" in A and any(r["removed"] == ["b", True] for r in A["rows"]))
     if case["kind"] == "load":
-        return len(case.get("vals", case.get("rows", []))) >= 3
+        return len(case.get("vals", case.get("rows", case.get("tilts", [])))) >= 3
     return len(case["tomos"]) >= 2 and len({len(t["tilts"]) for t in case["tomos"]}) >= 2
 
 
@@ -1343,14 +1751,24 @@ def stats(case, obs, resps):
             if resps and isinstance(resps[0], dict) and "wf" in resps[0]:
                 rt = "raise" in obs.get("fresh_reread", {}) or _same_object(P, obs["fresh_reread"]) is not None
                 d["mdoc_wfb_vs_roundtrip"] = f"wfb={resps[0]['wf']},roundtrip={'differs' if rt else 'same'}"
+                d["mdoc_textok_vs_wfb"] = f"textOk={resps[0].get('text_ok')},wfb={resps[0]['wf']}"
         return d
     if case["kind"] == "load":
-        return {"kind": "load:" + case["sub"], "load_rows": _bucket(len(case.get("vals", case.get("rows", []))))}
+        d = {"kind": "load:" + case["sub"], "load_rows": _bucket(len(case.get("vals", case.get("rows", case.get("tilts", [])))) or 1)}
+        if case["sub"].endswith("_in"):
+            d["load_input"] = case["sub"] + ":" + case["input"] + (":" + (case.get("ext") or "noext") if case["input"] == "file" and "ext" in case else "") + \
+                (":empty" if case.get("vals") == [] else "") + (":" + case["file_type"].lower() if "file_type" in case else "") + \
+                (":width" + str(case["width"]) if "width" in case else "")
+            d["load_outcome"] = "raise" if isinstance(obs.get("out"), dict) and "raise" in obs["out"] else "values"
+            if resps and isinstance(resps[0], dict):
+                d["load_model_reader"] = str(resps[0].get("reader"))
+        return d
     return {"kind": "wedge", "wedge_tomograms": len(case["tomos"]), "wedge_ctf": str(case["ctf"]), "wedge_dose": str(case["dose"]),
             "wedge_inputs": [f"list:{case['tomo_list']}", f"dims:{case['dims_mode']}", f"z:{case['z_mode']}" + ("-int" if case.get("z_int_array") else ""),
                              "tlt:" + ("mdoc" if case.get("tlt_from_mdoc") else "file")],
             "wedge_tilts": [_bucket(len(t["tilts"])) for t in case["tomos"]],
-            "wedge_outcome": "raise" if "raise" in obs.get("batch", {}) else "rows", "wedge_inconsistent": bool(case.get("inconsistent"))}
+            "wedge_outcome": "raise" if "raise" in obs.get("batch", {}) else "rows", "wedge_inconsistent": bool(case.get("inconsistent")),
+            "wedge_duplicate_tomogram": bool(case.get("duplicate"))}
 
 
 def shrink(case):
@@ -1387,6 +1805,8 @@ def shrink(case):
                     key = l.split("=")[0].strip()
                     yield dict(case, text="\n".join(x for j, x in enumerate(lines) if j < first or x.split("=")[0].strip() != key))
                     break
+    elif case["kind"] == "load" and case.get("ext") == ".mdoc":
+        return
     elif case["kind"] == "load":
         for k in ("vals", "rows"):
             if k in case and len(case[k]) > 1:
@@ -1446,9 +1866,12 @@ def probes(rng):
 
 
 LEVEL_TEXT = ("Lean 4 theorems about an executable character-level model of Mdoc reading/writing (_format_value typing, write, _read_mdoc), sort_by_tilt, "
-              "remove_images / kept_images, the mdoc dose, and polymorphic models of the tilt / dose / defocus loaders and of the STOPGAP / EM wedge lists; "
+              "remove_images / kept_images, the mdoc dose, and polymorphic models of the tilt / dose / defocus loaders (incl. their input dispatch) and of the "
+              "STOPGAP / EM wedge lists (incl. the STAR table that is written, its reload and the sg->em grouping); read-write-read is proved for a decidable, "
+              "exact class of texts (textOk); "
               "tied to the source by regenerated constants (section prefixes, write format strings, row filter of write, sort key, float column, dose keys and '+', "
-              "Angstrom->micron factors, mean expression, wedge column list and assignments) and by a differential run of the real functions against the model")
+              "Angstrom->micron factors, mean expression, wedge column list and assignments, STAR specifier, groupby/agg of sg->em, type chains and extension / "
+              "file-type dispatch tables of tlt_load, total_dose_load, defocus_load) and by a differential run of the real functions against the model")
 LEVEL_NOTE = ("trusted: Lean kernel; translator anchors; harness canonicalisation of pandas cells; Python float repr of <=15-digit decimals (probed); pandas sort on distinct keys; "
               "numeric loader outputs are compared with rel. tolerance 2e-6 (float32) / 1e-9 (float64); Starfile I/O belongs to C02")
 TECHNIQUE = "Lean 4 proof (list induction over lines/characters, merge-sort permutation, zip/flatten indexing, field identities) + regenerated constants + differential correspondence"
